@@ -65,3 +65,38 @@ Definition cte_parse (s : bytes) : option cte :=
   else if list_eqb s (bs "8bit") then Some EightBit
   else if list_eqb s (bs "binary") then Some Binary
   else None.
+
+(* ---------- Content-Disposition: the raw value and its reader (content_disposition.rs) ---------- *)
+(* str::split_once(char) *)
+Fixpoint split_once_char (c : N) (s : bytes) : option (bytes * bytes) :=
+  match s with
+  | [] => None
+  | x :: r => if x =? c then Some ([], r) else
+              match split_once_char c r with Some (a, b) => Some (x :: a, b) | None => None end
+  end.
+(* str::split_once(&str): the first occurrence of the pattern *)
+Fixpoint split_once_str (pat s : bytes) : option (bytes * bytes) :=
+  if starts_with pat s then Some ([], skipn (length pat) s) else
+  match s with
+  | [] => None
+  | x :: r => match split_once_str pat r with Some (a, b) => Some (x :: a, b) | None => None end
+  end.
+Definition strip_suffix_char (c : N) (s : bytes) : option bytes :=
+  match rev s with x :: r => if x =? c then Some (rev r) else None | [] => None end.
+
+Definition FILENAME_EQ : bytes := bs " filename=""".
+(* with_name's raw value *)
+Definition cd_raw (kind fname : bytes) : bytes := kind ++ bs ";" ++ FILENAME_EQ ++ fname ++ [34].
+(* Header::parse: Some (kind, None) = inline without a name, Some (kind, Some fname) = with_name(kind, fname) *)
+Definition cd_parse (s : bytes) : option (bytes * option bytes) :=
+  if list_eqb s (bs "inline") then Some (bs "inline", None) else
+  match split_once_char 59 s with
+  | Some (kind, rest) =>
+    if list_eqb kind (bs "inline") || list_eqb kind (bs "attachment") then
+      match split_once_str FILENAME_EQ rest with
+      | Some (_, f) => match strip_suffix_char 34 f with Some fname => Some (kind, Some fname) | None => None end
+      | None => None
+      end
+    else None
+  | None => None
+  end.
